@@ -8,8 +8,10 @@ import (
 	"io"
 	"os"
 	"path/filepath"
+	"regexp"
 	"strings"
 	"sync"
+	"time"
 
 	"github.com/taskctl/taskctl/internal/vh/common"
 	"github.com/taskctl/taskctl/pkg/output"
@@ -302,4 +304,101 @@ func pipe3Unit(res *common.Result, target string) {
 		}
 	}
 	res.Nontrivial = int64(len(distinct))
+}
+
+// ---- C19: a failing command's output reaches the stream and the task log in full, unterminated tail included ----
+
+type tailCase struct {
+	Shape  string `json:"shape"`  // fail, allow-last, allow-middle, stderr-fail, timeout
+	Format string `json:"format"` // raw, prefixed, cockpit
+}
+
+var tailPrefixRe = regexp.MustCompile(`(?m)^.*?tt\x1b\[0m: |^.*?tt: `)
+
+func runTail(c tailCase) string {
+	var outBuf, errBuf lockedBuffer
+	r, err := runner.NewTaskRunner()
+	if err != nil {
+		return "infra: " + err.Error()
+	}
+	r.Stdout, r.Stderr, r.OutputFormat = &outBuf, &errBuf, c.Format
+	t := task.NewTask()
+	t.Name = "tt"
+	wantOut, wantErr, wantFail := "", "", true
+	wantStream := "" // what the display stream carries: the runner sends both of a task's streams through one decorator
+	switch c.Shape {
+	case "fail":
+		t.Commands = []string{"printf 'line\\nfatal: no newline'; exit 3"}
+		wantOut = "line\nfatal: no newline"
+	case "allow-last":
+		t.AllowFailure, wantFail = true, false
+		t.Commands = []string{"printf 'a\\n'", "printf 'tail'; exit 3"}
+		wantOut = "a\ntail"
+	case "allow-middle":
+		t.AllowFailure, wantFail = true, false
+		t.Commands = []string{"printf 'tail1'; exit 3", "printf 'next\\n'"}
+		wantOut = "tail1next\n"
+	case "stderr-fail":
+		t.Commands = []string{"printf 'out\\n'; printf 'err tail' >&2; exit 3"}
+		wantOut, wantErr = "out\n", "err tail"
+		wantStream = "out\nerr tail"
+	case "timeout":
+		d := 300 * time.Millisecond
+		t.Timeout = &d
+		t.Commands = []string{"printf 'started, no newline'; sleep 5"}
+		wantOut = "started, no newline"
+	}
+	if wantStream == "" {
+		wantStream = wantOut
+	}
+	runErr := r.Run(t)
+	if (runErr != nil) != wantFail {
+		return fmt.Sprintf("Run returned %v, expected failure=%v", runErr, wantFail)
+	}
+	if got := t.Log.Stdout.String(); got != wantOut {
+		return fmt.Sprintf("the task's recorded stdout is %q, its commands wrote %q", got, wantOut)
+	}
+	if got := t.Log.Stderr.String(); got != wantErr {
+		return fmt.Sprintf("the task's recorded stderr is %q, its commands wrote %q", got, wantErr)
+	}
+	norm := func(s string) string {
+		s = tailPrefixRe.ReplaceAllString(s, "")
+		return strings.NewReplacer("\r", "", "\n", "").Replace(s)
+	}
+	switch c.Format {
+	case output.FormatRaw:
+		if got := outBuf.String() + errBuf.String(); got != wantStream {
+			return fmt.Sprintf("raw output forwarded %q, the commands wrote %q", got, wantStream)
+		}
+	case output.FormatPrefixed:
+		if got, want := norm(outBuf.String()+errBuf.String()), norm(wantStream); got != want {
+			return fmt.Sprintf("prefixed output carries %q, the commands wrote %q (without prefixes and line terminators)", got, want)
+		}
+	}
+	return ""
+}
+
+func tailUnit(res *common.Result) {
+	var idx int64
+	for _, sh := range []string{"fail", "allow-last", "allow-middle", "stderr-fail", "timeout"} {
+		for _, f := range []string{output.FormatRaw, output.FormatPrefixed, output.FormatCockpit} {
+			idx++
+			if !common.Mine(idx) {
+				continue
+			}
+			c := tailCase{Shape: sh, Format: f}
+			res.Evaluations++
+			res.AddSample(c)
+			d := runTail(c)
+			if strings.HasPrefix(d, "infra:") {
+				fmt.Fprintln(os.Stderr, d)
+				os.Exit(2)
+			}
+			if d != "" && res.AddViolation(common.Violation{Property: "C19", Key: fmt.Sprintf("C19:tail|%s|%s", c.Shape, c.Format), Desc: fmt.Sprintf("%+v: %s", c, d), Config: c},
+				map[string]interface{}{"harness": "taskrun", "mode": "plain", "property": "C19", "tail": c}) {
+				return
+			}
+		}
+	}
+	res.Nontrivial = res.Evaluations
 }
